@@ -16,6 +16,8 @@
 // two declarations declare the same function, [dcl.fct]/5).  Two overloads are distinguishable iff their canon differs.
 // The one documented exception the code makes on purpose ("C++ can't differentiate these two anyway", any call would be
 // ambiguous): `const T &` is keyed like `T`.
+// With -DREDECL (harness c05_signature_redecl) the other direction is asserted: two declarations of the same function
+// (equal canon: `void f(int); void f(const int);`) have equal signatures, i.e. are recorded as ONE callable variant.
 #include "verif.h"
 #include "typeManager.h"
 #include "cppSimpleType.h"
